@@ -69,7 +69,7 @@ func init() {
 	checks["C03"] = histCheck("C03", []string{"C03.world_fsck", "C03.world_step_fsck", "C03.world_closed", "C03.world_staged_blobs_readable", "C03.world_step_closed", "C03.inv_run", "C03.inv_step", "C03.objects_monotone", "C03.world_connected", "C03.world_step_connected", "C03.noClash_of_not_commit", "C03.world_objects_monotone", "C03.world_history_objects_monotone", "C03.put_monotone", "C03.puts_monotone", "C03.put_present", "C03.name_is_hash", "C03.branch_target_present", "C10.add_invalid", "C19.get_returns_requested"}, histRule+"; hostile stream: ids of blobs/trees given to update-ref, names with '/', '..', resets to zero-id reflog entries",
 		func(ctx *Ctx) *HistCfg {
 			return &HistCfg{Prop: "C03", Cases: tierN(ctx, 150, 1500), MinSteps: 10, MaxSteps: 40,
-				W:       weights(Weights{"update-ref": 5, "branch": 4, "branch-rename": 3, "reset": 6, "junk": 6, "switch-c": 2, "commit-inject": 4, "fd-swap": 4, "restore": 6}),
+				W:       weights(Weights{"update-ref": 5, "branch": 4, "branch-rename": 3, "reset": 6, "junk": 6, "switch-c": 2, "commit-inject": 4, "fd-swap": 4, "restore": 6, "lock-twin-probe": 3}),
 				Oracles: []HistOracle{orC03}, PreReset: true, AbsRefine: true}
 		})
 	checks["C04"] = histCheck("C04", []string{"C04.world_add_file_stored", "C04.update_membership", "C04.world_add_is_cmd", "C04.world_rm_is_cmd", "C04.world_add_frame", "C04.world_rm_frame", "C04.update_perm", "C04.update_same_noop", "C04.delete_exact", "C04.eraseIdx_canonical", "C04.sortEntries_sorted", "C06.getEntry_correct", "C04.rm_exact", "C04.rmArgs_exact", "C04.rm_unknown_refused", "C04.addArgs_frame", "C04.add_file_staged", "C04.update_canonical", "C04.delete_frame", "C04.add_dir_staged", "C04.addFold_staged"}, histRule,
@@ -106,7 +106,7 @@ func init() {
 		func(ctx *Ctx) *HistCfg {
 			return &HistCfg{Prop: "C10", Cases: tierN(ctx, 250, 2500), MinSteps: 10, MaxSteps: 40,
 				W: weights(Weights{"branch": 10, "branch-rename": 6, "branch-delete": 6, "branch-list": 4, "switch": 8, "switch-c": 5, "update-ref": 6,
-					"rev-parse": 6, "commit": 8, "reset": 2, "write": 8, "add": 6, "restore": 0, "rm": 1, "junk": 1}),
+					"rev-parse": 6, "commit": 8, "reset": 2, "write": 8, "add": 6, "restore": 0, "rm": 1, "junk": 1, "lock-twin-probe": 3}),
 				Oracles: []HistOracle{orC10}, AbsRefine: true}
 		})
 	checks["C13"] = histCheck("C13", []string{"C13.status_ok", "C13.modified_iff", "C13.same_bytes_not_modified", "C13.deleted_iff", "C13.untracked_iff", "C01.encode_injective", "C06.getEntry_correct", "C17.nothing_hidden_without_ignore"}, histRule,
